@@ -53,7 +53,7 @@ def overlap_obls(prefix):
     for n, tier in ((0, "quick"), (1, "quick"), (2, "quick"), (3, "quick"), (4, "thorough")):
         out.append(Obl("%s.find-file-N%d" % (prefix, n), "vset/overlap.c", real=VER_REAL, include_real=INC, kit=KIT,
                        defs={"VP_MODE": 0, "VP_LV": 1, "VP_N1": n}, unwind=9,
-                       unwindset={"memcmp.0": 3, "ldb_find_file.0": 4},
+                       unwindset={"memcmp.0": 2, "ldb_find_file.0": 4},
                        restrict_fp=CMP_FP, tier=tier, timeout=300,
                        functions=["ldb_find_file", "ldb_ikc_compare"],
                        desc="find_file == first file whose largest internal key >= target (linear reference), sorted/disjoint level",
@@ -63,7 +63,7 @@ def overlap_obls(prefix):
                         (1, 3, "quick"), (1, 4, "thorough")):
         out.append(Obl("%s.overlaps-range-L%d-N%d" % (prefix, lv, n), "vset/overlap.c", real=VER_REAL, include_real=INC, kit=KIT,
                        defs={"VP_MODE": 1, "VP_LV": lv, "VP_N%d" % lv: n}, unwind=9,
-                       unwindset={"memcmp.0": 3, "memcpy.0": 3, "ldb_find_file.0": 4},
+                       unwindset={"memcmp.0": 2, "memcpy.0": 3, "ldb_find_file.0": 4},
                        restrict_fp=OVL_FP, tier=tier, timeout=300,
                        functions=["ldb_some_file_overlaps_range", "ldb_version_overlap_in_level", "after_file", "before_file",
                                   "ldb_find_file", "ldb_ikey_set"],
@@ -74,7 +74,7 @@ def overlap_obls(prefix):
     for lv, n, tier in ((0, 1, "quick"), (0, 2, "quick"), (0, 3, "quick"), (2, 1, "quick"), (2, 2, "quick"), (2, 3, "quick")):
         out.append(Obl("%s.overlapping-inputs-L%d-N%d" % (prefix, lv, n), "vset/overlap.c", real=VER_REAL, include_real=INC, kit=KIT,
                        defs={"VP_MODE": 3, "VP_LV": lv, "VP_N%d" % lv: n, "VP_VEC_CAP": 10}, unwind=9,
-                       unwindset={"memcmp.0": 3, "vp_realloc_ptrs.0": 11, "harness.0": 11,
+                       unwindset={"memcmp.0": 2, "vp_realloc_ptrs.0": 11, "harness.0": 11,
                                   "ldb_version_get_overlapping_inputs.0": (n * (n + 1) + 2) if lv == 0 else n + 1},
                        restrict_fp=GOI_FP, tier=tier, timeout=300,
                        functions=["ldb_version_get_overlapping_inputs"],
@@ -85,7 +85,7 @@ def overlap_obls(prefix):
                     ((0, 1, 1, 2), "quick"), ((0, 0, 0, 0), "quick"), ((2, 2, 2, 2), "thorough"), ((1, 2, 2, 2), "thorough")):
         out.append(Obl("%s.pick-level-%s" % (prefix, _lname(t)), "vset/overlap.c", real=VER_REAL, include_real=INC, kit=KIT,
                        defs=dict(_levels(t), VP_MODE=2, VP_VEC_CAP=10), unwind=9,
-                       unwindset={"memcmp.0": 3, "memcpy.0": 3, "ldb_find_file.0": 4,
+                       unwindset={"memcmp.0": 2, "memcpy.0": 3, "ldb_find_file.0": 4,
                                   "vp_realloc_ptrs.0": 11, "harness.0": 11},
                        restrict_fp=OVL_FP + GOI_FP, tier=tier, timeout=400,
                        functions=["ldb_version_pick_level_for_memtable_output", "ldb_version_overlap_in_level",
@@ -106,7 +106,7 @@ def baselevel_obls(prefix):
         mx = max(t)
         out.append(Obl("%s.base-level-C%d-%s-Q%d" % (prefix, cl, _lname(t), q), "vset/baselevel.c", real=VER_REAL, include_real=INC, kit=KIT,
                        defs=dict(_levels(t), VP_CL=cl, VP_Q=q), unwind=11,
-                       unwindset={"memcmp.0": 3, "ldb_compaction_is_base_level_for_key.0": mx + 1,
+                       unwindset={"memcmp.0": 2, "ldb_compaction_is_base_level_for_key.0": mx + 1,
                                   "ldb_compaction_is_base_level_for_key.1": 8},
                        restrict_fp=CMP_FP, tier=tier, timeout=400, unwind_is_violation=True,
                        functions=["ldb_compaction_is_base_level_for_key"],
@@ -143,7 +143,7 @@ def boundary_obls(prefix):
         out.append(Obl("%s.%s-C%d-%s" % (prefix, BD_MODES[mode], cl, _lname(t[:7])), "vset/boundary.c",
                        real=VER_REAL, include_real=INC, kit=KIT,
                        defs=dict(_levels(t[:7]), VP_MODE=mode, VP_CL=cl, VP_NCL1=n1, VP_NCL2=n2, VP_VEC_CAP=8), unwind=11,
-                       unwindset={"memcmp.0": 10, "memcpy.0": 10, "vp_realloc_ptrs.0": 9,
+                       unwindset={"memcmp.0": 2, "memcpy.0": 10, "vp_realloc_ptrs.0": 9,
                                   "ldb_version_get_overlapping_inputs.0": (t[0] * (t[0] + 1) + 2) if cl == 0 else mx + 1,
                                   "ldb_add_boundary_inputs.0": mx + 1, "find_smallest_boundary_file.0": mx + 1,
                                   "find_largest_key.0": mx + 2, "total_file_size.0": mx + 2, "ldb_versions_get_range.0": 2 * mx + 2,
